@@ -26,6 +26,16 @@ func assignsIndexOf(name string) func(ast.Stmt) bool {
 }
 
 func init() {
+	registerLogic(logicUnit{Name: "LogicIcmp", Dir: "icmp", Targets: []logicTarget{
+		{Fn: "icmpDriver.handleProbeLayers", Lean: "handleProbeLayers"},
+		{Fn: "icmpDriver.getRTTFromRelSeq", Lean: "getRTTFromRelSeq"},
+		{Fn: "nextEchoID", Lean: "nextEchoID"},
+	}})
+	registerLogic(logicUnit{Name: "LogicPackets", Dir: "packets", Targets: []logicTarget{
+		{Fn: "AllocPacketID", Lean: "AllocPacketID"},
+		{Fn: "stripEthernetHeader", Lean: "stripEthernetHeader"},
+		{Fn: "ReadAndParse", Lean: "ReadAndParse"},
+	}})
 	registerLogic(logicUnit{Name: "LogicCommon", Dir: "common", Targets: []logicTarget{
 		{Fn: "TracerouteParams.validate", Lean: "validate"},
 		{Fn: "TracerouteParams.validateProbe", Lean: "validateProbe"},
